@@ -151,7 +151,11 @@ CLAIMED['C14'] = dict(
          '(harness/props/c14init.py); the three initialize() are part of the source-shape tie. Framework stage '
          '(harness/props/c14frame.py, after a seeded change to ResourceService._on_created was missed): the real '
          'LinuxResourceService._run (start-up replay, poll loop over real inotify) with the real '
-         'ResourceServiceClient and NetworkResourceService; the statement evaluated at every quiescent point.',
+         'ResourceServiceClient and NetworkResourceService; the statement evaluated at every quiescent point. Framework model '
+         '(sub-agent): Node/SvcFrame.v + Props/C14Frame.v - the framework as a producer of service schedules; the start-up '
+         'replays exactly the replayable requests once each (C14F_startup_replays_*), every framework history is guarded '
+         '(C14F_frame_run_guarded), hence C14F_service_consistent = C14_service_consistent without its premise; client '
+         'laws; translator section svcframe; call-log correspondence with the real framework.',
     note='exclusivity under true concurrency rests on symlink(2) EEXIST (model definition); service-level consistency '
          'is claimed for the schedules services/_base_service.py produces (guarded in the model, exercised for real by '
          'the framework stage); netdev/iptables are recording '
@@ -281,7 +285,13 @@ CLAIMED['C09'] = dict(
          'sound operations); the known exceptions are C09H_*_refuted witnesses in the same alphabet. Every hop of an '
          'E-master history is compared with the model\'s state and the invariant is evaluated on the real snapshots '
          '(harness/props/c09handlers.py); the oracle on the real Master (content of every node compared with '
-         'Master.cell after every cycle and restart) and the write-list correspondence remain.',
+         'Master.cell after every cycle and restart) and the write-list correspondence remain. The store writes themselves '
+         '(sub-agent): Store/ZkUtils.v + Props/C09Zk.v model zkutils.create/put/update/ensure_exists/ensure_deleted/'
+         '_payload and the ZkBackend methods over a ZooKeeper tree with versions, ephemeral flags and sequence counters '
+         '(C09Z_create_existing_raises, C09Z_put_same_payload_no_write, C09Z_put_existing_then_get, '
+         'C09Z_payload_bytes_verbatim, C09Z_backend_put_existing_is_map_update, ...); the catch-and-retry structure is '
+         're-extracted each run (C09Z_tables_ok); the real functions run on the real ZkClient against a wire-level '
+         'server fake, result and whole tree compared after every operation.',
     note=MASTER_NOTE + ' Every cycle preceded by a Tick of at least 1 s; identity_count is not part of the statement.',
     technique='Rocq proof over AST-regenerated publication shape + content oracle on the real Master over an '
               'in-memory backend + differential correspondence (cases.v/vm_compute)',
